@@ -618,6 +618,16 @@ func runOrfPhase(c *mon.Case, r *gen.Rand, phase bool) {
 			in.Seqs[i] = strings.ToUpper(in.Seqs[i])
 		}
 	}
+	junk := ""
+	if phase && givenOrfs && r.Chance(0.2) {
+		// a sequence that aligns with no reference at all (the phaser reports it as removed): what comes back for it
+		// must own its data like every other result
+		junk = r.PickStr([]string{"CCCCCCCCCCCC", "CCCCCCCCCCCCCCCCCCCCC", "GGGGGGGGGGGG"})
+		in.Names = append(in.Names, "junk")
+		in.Seqs = append(in.Seqs, junk)
+		in.Comments = append(in.Comments, "")
+		c.Count("phase:junk-sequence")
+	}
 	seqs := in.bag()
 	e := &env{c: c, r: r, ws: []*watcher{watch("sequences", seqs)}}
 	st := storeOf(seqs)
@@ -712,6 +722,14 @@ func runOrfPhase(c *mon.Case, r *gen.Rand, phase bool) {
 				orfDesc = "amino acid references"
 			}
 		}
+		if translate && r.Chance(0.12) {
+			// protein references made of letters that are also nucleotide codes, DECLARED as protein by the caller:
+			// a query must not touch that declaration (alignment errors are fine, they are not C19's business)
+			aa := align.NewSeqBag(align.AMINOACIDS)
+			aa.AddSequence("orfamb", "M"+r.Str(r.Range(6, 14), "KVDGSHWRYATCN"), "")
+			orfs = aa
+			orfDesc = "amino acid references (ambiguous letters, declared protein)"
+		}
 		e.ws = append(e.ws, watch("reference ORFs", orfs))
 		ost := storeOf(orfs)
 		for k, v := range ost.cells {
@@ -725,7 +743,7 @@ func runOrfPhase(c *mon.Case, r *gen.Rand, phase bool) {
 	// every sequence must hold an upper case start codon on a strand the phaser looks at: then at least
 	// one alignment has a positive score and the phaser has a best hit to report
 	for _, s := range in.Seqs {
-		if !strings.Contains(s, "ATG") {
+		if !strings.Contains(s, "ATG") && s != junk {
 			c.Count("phase-skipped:no-start-codon")
 			return
 		}
@@ -1213,6 +1231,8 @@ func main() {
 			mon.Floor("mut-original:"+m, 100)
 		}
 	}
+	mon.Floor("phase:junk-sequence", 100)
+	mon.Floor("phase-orfs:amino acid references (ambiguous letters, declared protein)", 40)
 	mon.Floor("stats-unknown-alphabet", 100)
 	mon.Floor("SubAlign:whole", 20)
 	mon.Floor("SelectSites:identity", 20)
